@@ -8,6 +8,7 @@ use qrlew::{
     expr::aggregate::Aggregate,
     relation::{Relation, Variant as _},
 };
+use qrlew::data_type::DataTyped as _;
 use serde_json::json;
 use std::collections::HashMap;
 use std::panic::{catch_unwind, AssertUnwindSafe};
@@ -79,8 +80,9 @@ pub fn gen_params(r: &mut Rng) -> DpParameters {
     let eps = match r.below(4) { 0 => 1.0, 1 => 10f64.powf(-(r.below(3000) as f64) / 1000.0), 2 => 1.0 + (r.below(1900) as f64) / 100.0, _ => 0.5 };
     let delta = match r.below(4) { 0 => 1e-5, 1 => 10f64.powf(-(r.below(12000) as f64) / 1000.0), 2 => 0.5, _ => 1e-12 };
     let share = *r.pick(&[0.5, 0.5, 0.1, 0.9, 0.25, 0.0, 1.0]);
-    let mult = *r.pick(&[100.0, 1.0, 5.0, 1000.0]);
-    let mshare = *r.pick(&[0.1, 1.0, 0.01]);
+    // (a multiplicity of zero makes every clipping bound zero: nothing may then be released)
+    let mult = *r.pick(&[100.0, 1.0, 5.0, 1000.0, 0.0]);
+    let mshare = *r.pick(&[0.1, 1.0, 0.01, 0.0]);
     let cu = *r.pick(&[5u64, 1, 2, 20]);
     DpParameters::new(eps, delta, share, mult, mshare, cu)
 }
@@ -122,6 +124,15 @@ pub fn run(outdir: &str, seed: u64, thorough: bool) -> serde_json::Value {
         if !ok {
             st.violation(json!({"kind":"privacy-loss-under-reported","query":sql,"epsilon":p.epsilon,"delta":p.delta,"share":p.tau_thresholding_share,
                 "sigma_over_c":ratios,"recorded_multipliers":mults,"event":rw.dp_event().to_string()}));
+        }
+        // a sum released without noise (sigma = 0, no recorded entry) must be the constant 0: its clipping bound is 0
+        for s0 in sites.iter().filter(|s| s.column != "_COUNT_DISTINCT_PID_" && s.sigma == 0.0) {
+            st.bump("noise_sites_with_sigma_zero");
+            let ty = crate::ir::all_nodes(rw.relation()).iter().find_map(|n| if let Relation::Map(m) = n { if m.name() == s0.map { m.schema().iter().find(|f| f.name() == s0.column).map(|f| f.data_type()) } else { None } } else { None });
+            let zero = ty.as_ref().and_then(|t| t.absolute_upper_bound()) == Some(0.0);
+            if !zero {
+                st.violation(json!({"kind":"aggregate-released-without-noise","query":sql,"column":s0.column,"declared_type":ty.map(|t| t.to_string()),"multiplicity":p.privacy_unit_max_multiplicity,"multiplicity_share":p.privacy_unit_max_multiplicity_share,"event":rw.dp_event().to_string()}));
+            }
         }
         let eds: Vec<(f64, f64)> = leaves.iter().filter(|l| l.0 == "epsilon_delta").map(|l| (l.1, l.2)).collect();
         if eds.len() < taus.len() {
